@@ -422,31 +422,113 @@ func CheckLimits(ix *Index, timing bool) (out []Finding, obs map[string]int64) {
 	if !timing {
 		return
 	}
-	// deadline per item
+	// the property's proviso: "provided the concurrency limit is not holding exports back". With
+	// max_concurrency = k > 0 the limit holds exports back at instant t when k exports are in flight at t,
+	// counted over ALL shards (the implementation has one limiter per processor, which also satisfies C11's
+	// per-combination bound; counting globally is the weaker, hence sound, reading of the proviso). Closed
+	// intervals [begin, end] on the virtual clock; an export that never ended stays in flight. An item is
+	// exempt when that happens at ANY instant of its window.
+	k := int(cfg.MaxConcurrency)
+	type span struct{ from, to time.Duration }
+	const never = time.Duration(1<<62 - 1)
+	flights := map[string][]span{}
+	if k > 0 {
+		for _, n := range ix.expOrder {
+			x := ix.exports[n]
+			cb := "" // one limiter for all shards
+			sp := span{x.begin.VT, never}
+			if x.end != nil {
+				sp.to = x.end.VT
+			}
+			flights[cb] = append(flights[cb], sp)
+		}
+	}
+	heldBack := func(cb string, from, to time.Duration) bool {
+		if k == 0 {
+			return false
+		}
+		at := func(t time.Duration) int {
+			n := 0
+			for _, f := range flights[cb] {
+				if f.from <= t && t <= f.to {
+					n++
+				}
+			}
+			return n
+		}
+		if at(from) >= k {
+			return true
+		}
+		for _, f := range flights[cb] {
+			if f.from >= from && f.from <= to && at(f.from) >= k {
+				return true
+			}
+		}
+		return false
+	}
+	// the scenario's clean part ends when Shutdown is called or when the harness had to release callers
+	end := never
+	if ix.shutCall != nil {
+		end = ix.shutCall.VT
+	}
+	for i := range r.log {
+		if r.log[i].Kind == "stuck" && r.log[i].VT < end {
+			end = r.log[i].VT
+		}
+	}
+	// deadline per item. The proviso is consulted only for an item that missed its deadline: its own export
+	// then lies outside the window, which holds other items' exports only.
 	for id, q := range ix.reqs {
 		if q.enq == nil {
 			continue
 		}
+		deadline := q.enq.VT
+		if cfg.HasTimer() {
+			deadline += cfg.Timeout
+		}
+		exempt := func() bool {
+			if heldBack("", q.enq.VT, deadline) {
+				obs["items_exempt_concurrency_limit_was_holding_exports_back"]++
+				return true
+			}
+			return false
+		}
 		for _, u := range r.Built[id].UIDs {
 			xs := ix.uidExps[u]
 			if len(xs) == 0 {
-				continue // loss is C05's business
+				// never exported at all is C05's business; not exported by the deadline although the scenario
+				// went on beyond it (no Shutdown, no release before) is this property's
+				if k > 0 && deadline < end && !exempt() {
+					add("buffered item not exported by its deadline although the concurrency limit was not holding exports back",
+						fmt.Sprintf("uid %s accepted at %v, deadline %v, never exported before %v; max_concurrency %d, exports in flight during the window: fewer than %d at every instant", u, q.enq.VT, deadline, end, k, k))
+					break
+				}
+				continue
 			}
 			bt := ix.exports[xs[0]].begin.VT
 			obs["items_deadline_checked"]++
+			if k > 0 {
+				obs["items_deadline_checked_under_a_concurrency_limit"]++
+			}
+			if bt > deadline && exempt() {
+				continue
+			}
 			if cfg.HasTimer() {
-				if bt > q.enq.VT+cfg.Timeout {
-					add("buffered item exported later than timeout after it was accepted", fmt.Sprintf("uid %s accepted at %v exported at %v (timeout %v, send_batch_size %d)", u, q.enq.VT, bt, cfg.Timeout, cfg.SendBatchSize))
+				if bt > deadline {
+					add("buffered item exported later than timeout after it was accepted", fmt.Sprintf("uid %s accepted at %v exported at %v (timeout %v, send_batch_size %d, max_concurrency %d)", u, q.enq.VT, bt, cfg.Timeout, cfg.SendBatchSize, k))
 					break
 				}
 				if bt > q.enq.VT {
 					obs["items_that_waited_for_the_timer"]++
 				}
 			} else if bt != q.enq.VT {
-				add("item not exported immediately although timeout or send_batch_size is zero", fmt.Sprintf("uid %s accepted at %v exported at %v", u, q.enq.VT, bt))
+				add("item not exported immediately although timeout or send_batch_size is zero", fmt.Sprintf("uid %s accepted at %v exported at %v (max_concurrency %d)", u, q.enq.VT, bt, k))
 				break
 			}
 		}
+	}
+	if k > 0 {
+		return // the quiescence invariant below is evaluated with unlimited concurrency only
 	}
 	// quiescence invariant: the last event at each distinct virtual instant is a quiescent state
 	type cnt struct{ in, out int }
